@@ -39,8 +39,8 @@ CHECKS["C12"] = ("property-based testing over a guarded DRUP-style trace: own re
 CHECKS["C13"] = ("property-based testing over a guarded trace of preprocessed roots: z3/cvc5 decide R=>A and sat(A)=>sat(R)",
                  "Generated scripts in both preprocessing modes with push/pop; at every check-sat the roots handed to the SAT engine must imply the active assertions and be satisfiable whenever they are. Exploration only.",
                  HOOKED + REF, "DESIGN.md §4 C13, §5")
-CHECKS["C22"] = ("property-based testing in two arms: (A) theory-solver verdicts recorded inside real search (guarded trace) re-decided by z3/cvc5 on the replayed literal stack; (B) stateful rapidcheck harness driving LASolver, Egraph, IDLSolver and RDLSolver directly with generated declare/assert/backtrack/check histories, libz3 as reference on the asserted literal set",
-                 "Arm A (monitor inside search, all theories incl. arrays and UF+LA): every inconsistency verdict must be for an unsat literal set, every complete consistent verdict (no pending splits, integer-free logics) for a sat one. Arm B (harness/h_theory.cc): histories following THandler's call protocol (levels, one backtrack point per literal, deductions drained and asserted back); conflicts only on unsat sets with explanations made of asserted literals, complete SAT only on sat sets, deductions implied. Arrays are covered by arm A only. Exploration only.",
+CHECKS["C22"] = ("property-based testing in two arms: (A) theory-solver verdicts recorded inside real search (guarded trace) re-decided by z3/cvc5 on the replayed literal stack; (B) stateful rapidcheck harness driving LASolver, Egraph, IDLSolver, RDLSolver and Egraph+ArraySolver directly with generated declare/assert/backtrack/check histories, libz3 as reference on the asserted literal set",
+                 "Arm A (monitor inside search, all theories incl. arrays and UF+LA): every inconsistency verdict must be for an unsat literal set, every complete consistent verdict (no pending splits, integer-free logics) for a sat one. Arm B (harness/h_theory.cc): histories following THandler's call protocol (levels, one backtrack point per literal, deductions drained and asserted back); conflicts only on unsat sets with explanations made of asserted literals, complete SAT only on sat sets, deductions implied. Arrays (Egraph+ArraySolver) are driven by arm B too; their consistency verdicts are judged by arm A only. Exploration only.",
                  HOOKED + REF + "; libz3 in process (arm B)", "DESIGN.md §4 C22, §5, §11")
 CHECKS["C20"] = ("property-based differential testing (file mode vs pipe mode) with a layout generator and a hook-enforced read schedule",
                  "Generated valid scripts under adversarial layouts (delimiters inside comments/strings/quoted symbols) and read-size schedules; pipe-mode stdout and exit status must equal file mode byte for byte. Exploration only.",
